@@ -228,7 +228,7 @@ func gen(r *hx.Rng, n int, tier string) []string {
 	}
 	bases := map[string]*base{}
 	// A. every parameter set: a genuine Tink signature verified by the model,
-	// the free rejection classes, and two full-cost modifications
+	// the free rejection classes, and one (thorough: three) full-cost modifications
 	var wg sync.WaitGroup
 	for _, p := range sets {
 		b := newBase(r, p)
@@ -243,7 +243,11 @@ func gen(r *hx.Rng, n int, tier string) []string {
 		if spend(p.cVf) {
 			out = append(out, vfLine(b, b.pk, b.msg, b.ctx, b.sig, "+valid"))
 		}
-		for i := 0; i < 2; i++ {
+		nmut := 1
+		if tier == "thorough" {
+			nmut = 3
+		}
+		for i := 0; i < nmut; i++ {
 			if spend(p.cVf) {
 				out = append(out, mutate(r, b, hx.PickS(r, mutKinds)))
 			}
@@ -273,7 +277,7 @@ func gen(r *hx.Rng, n int, tier string) []string {
 			out = append(out, fmt.Sprintf("C16|tv|%s|T|%d|%s|%s|%s|%s", p.name, id, hx.H(b.pk), hx.H(b.msg), hx.H(append(pre, signTinkMsg(b)...)), "+tink-valid-T"))
 		}
 		q := hx.PickS(r, []*pset{setByName("SHAKE-128f"), setByName("SHA2-128f")})
-		if spend(q.cSg) {
+		if (tier == "thorough" || r.Chance(50)) && spend(q.cSg) {
 			qb := bases[q.name]
 			v := hx.PickS(r, []string{"T", "N"})
 			out = append(out, fmt.Sprintf("C16|ts|%s|%s|%d|%s|%s|%s|+tink-sign", q.name, v, id, hx.H(qb.sk), hx.H(msgOf(r)), hx.H(r.Bytes(q.n))))
@@ -300,6 +304,9 @@ func gen(r *hx.Rng, n int, tier string) []string {
 			opts[i], opts[j] = opts[j], opts[i]
 		}
 		for _, o := range opts {
+			if tier != "thorough" && (o.kg && o.p.cKg > 350000 || !o.kg && o.p.cSg > 350000) {
+				continue // the two 192s key generations (≈ 420k calls) are thorough-tier only
+			}
 			if o.kg && spend(o.p.cKg) {
 				out = append(out, kgLine(r, o.p, "+kg"))
 				break
@@ -310,7 +317,11 @@ func gen(r *hx.Rng, n int, tier string) []string {
 			}
 		}
 	}
-	// G. the rest of the budget: more of everything, s-set signing when it fits (thorough tier)
+	// G. the rest of the budget (quick: at most 40k calls of it): more of everything,
+	// s-set signing when it fits (thorough tier)
+	if tier != "thorough" && budget > 40000 {
+		budget = 40000
+	}
 	for round := 0; budget > 0 && round < 100000; round++ {
 		p := hx.PickS(r, sets)
 		b := bases[p.name]
